@@ -34,9 +34,9 @@ func Str(s string) string {
 	return b.String()
 }
 
-func N(v uint64) string   { return fmt.Sprintf("%d%%N", v) }
-func Ni(v int) string     { return fmt.Sprintf("%d%%N", v) }
-func Nat(v int) string    { return fmt.Sprintf("%d%%nat", v) }
+func N(v uint64) string { return fmt.Sprintf("%d%%N", v) }
+func Ni(v int) string   { return fmt.Sprintf("%d%%N", v) }
+func Nat(v int) string  { return fmt.Sprintf("%d%%nat", v) }
 func Z(v int64) string {
 	if v < 0 {
 		return fmt.Sprintf("(%d)%%Z", v)
@@ -76,6 +76,8 @@ type Out struct {
 	Imports  string // e.g. "From Verif Require Import C16.Model."
 	CaseType string // Coq type of one case
 	PerShard int
+	Prefix   string
+	IDBase   int
 	cases    []string
 	Hist     map[string]int // input-distribution histogram
 	Samples  []interface{}
@@ -83,18 +85,23 @@ type Out struct {
 	Extra    map[string]interface{}
 }
 
+// NewOut: with VERIF_SHARD_PREFIX=<p> (a second harness writing into the directory of the property's main harness) the shards
+// are cases_<p><k>.v, the statistics go to stats_<p>.json and case ids start at VERIF_ID_BASE.
 func NewOut(dir, imports, caseType string, perShard int) *Out {
 	_ = os.MkdirAll(dir, 0o755)
-	old, _ := filepath.Glob(filepath.Join(dir, "cases_*.v"))
+	prefix := os.Getenv("VERIF_SHARD_PREFIX")
+	base := 0
+	fmt.Sscan(os.Getenv("VERIF_ID_BASE"), &base)
+	old, _ := filepath.Glob(filepath.Join(dir, "cases_"+prefix+"*.v"))
 	for _, f := range old {
 		_ = os.Remove(f)
 	}
-	return &Out{Dir: dir, Imports: imports, CaseType: caseType, PerShard: perShard,
+	return &Out{Dir: dir, Imports: imports, CaseType: caseType, PerShard: perShard, Prefix: prefix, IDBase: base,
 		Hist: map[string]int{}, Nontriv: map[string]bool{}, Extra: map[string]interface{}{}}
 }
 
-func (o *Out) Add(term string) int { o.cases = append(o.cases, term); return len(o.cases) - 1 }
-func (o *Out) Count(k string)      { o.Hist[k]++ }
+func (o *Out) Add(term string) int    { o.cases = append(o.cases, term); return len(o.cases) - 1 }
+func (o *Out) Count(k string)         { o.Hist[k]++ }
 func (o *Out) CountN(k string, n int) { o.Hist[k] += n }
 func (o *Out) Sample(v interface{}) {
 	if len(o.Samples) < 5 {
@@ -120,7 +127,7 @@ func (o *Out) Flush() error {
 			if k == j-1 {
 				sep = ""
 			}
-			fmt.Fprintf(&b, " (%d%%N, %s)%s\n", k, o.cases[k], sep)
+			fmt.Fprintf(&b, " (%d%%N, %s)%s\n", k+o.IDBase, o.cases[k], sep)
 		}
 		b.WriteString("].\n")
 		b.WriteString("Definition MM := Eval vm_compute in mismatches cases.\n")
@@ -128,7 +135,7 @@ func (o *Out) Flush() error {
 		b.WriteString("Definition KF := Eval vm_compute in knownclass cases.\n")
 		b.WriteString("Set Printing Width 1000000.\nSet Printing Depth 1000000.\n")
 		b.WriteString("Print MM.\nPrint CF.\nPrint KF.\n")
-		if err := os.WriteFile(filepath.Join(o.Dir, fmt.Sprintf("cases_%d.v", shard)), []byte(b.String()), 0o644); err != nil {
+		if err := os.WriteFile(filepath.Join(o.Dir, fmt.Sprintf("cases_%s%d.v", o.Prefix, shard)), []byte(b.String()), 0o644); err != nil {
 			return err
 		}
 		shard++
@@ -143,7 +150,11 @@ func (o *Out) Flush() error {
 		"distinct_nontrivial": len(o.Nontriv), "samples": o.Samples, "extra": o.Extra,
 	}
 	buf, _ := json.MarshalIndent(st, "", " ")
-	return os.WriteFile(filepath.Join(o.Dir, "stats.json"), buf, 0o644)
+	name := "stats.json"
+	if o.Prefix != "" {
+		name = "stats_" + o.Prefix + ".json"
+	}
+	return os.WriteFile(filepath.Join(o.Dir, name), buf, 0o644)
 }
 
 // CaseText returns the Coq term of case i (for replay files).
